@@ -25,7 +25,7 @@ for u in U16:
     UNIT_DEFAULT_PROPS[u] = ["C04"]
 
 UNIT_DEFAULT_PROPS["U6b"] = ["C04"]
-UNIT_DEFAULT_PROPS["U5"] = ["C16", "C11"]
+UNIT_DEFAULT_PROPS["U5"] = ["C16", "C11", "C12"]
 UNIT_DEFAULT_PROPS["U12"] = ["C12"]
 UNIT_DEFAULT_PROPS["U11"] = ["C14"]
 UNIT_DEFAULT_PROPS["U13"] = ["C17"]
@@ -55,12 +55,12 @@ PROPS = {
     "C08": {"units": ["U10", "U10b", "U17"] + U9 + U16, "safety_units": ["U17"]},
     "C09": {"units": ["U10", "U10b", "U18"] + U9, "safety_units": ["U10", "U10b", "U18"]},
     "C20": {"units": ["U6", "U6b"]},
-    "C10": {"units": U9},
+    "C10": {"units": ["U6", "U6b", "U7"] + U9},
     "C11": {"units": ["U1", "U2", "U3", "U4", "U5"], "safety_units": ["U1", "U2", "U3", "U4", "U5"]},
-    "C12": {"units": ["U1", "U2", "U4", "U12"], "safety_units": ["U12"]},
+    "C12": {"units": ["U1", "U2", "U4", "U5", "U12"], "safety_units": ["U12"]},
     "C13": {"units": ["U1", "U4"]},
     "C16": {"units": ["U5"], "safety_units": ["U5"]},
     "C17": {"units": ["U13"], "safety_units": ["U13"]},
-    "C18": {"units": ["U1"]},
+    "C18": {"units": ["U1", "U2", "U3", "U4"]},
     "C19": {"units": []},
 }
